@@ -269,7 +269,7 @@ def stepVals (m : M) (fr : Frame) (vs : List SVal) : Step :=
   | .discard => goto_ m .done
   | .pcallB l fn => vals { m with line := l, curFn := fn } (.bool true :: vs)
   | .xpcallB _ l fn => vals { m with line := l, curFn := fn } (.bool true :: vs)
-  | .xpcallH => vals m (.bool false :: vs)
+  | .xpcallH => vals m [.bool false, v]      -- the message handler is called for ONE result (ldo.c luaD_throw → errfunc)
   | .coB => switchToParent m .dead [] (fun wrap => if wrap then .vals vs else .vals (.bool true :: vs))
   | .resumeB .. => unspec "internal: value delivered to a resume frame"
   | .ret1 => val1 m v
